@@ -5,7 +5,7 @@
 
   * `RTok`   : a token in a chosen spelling — names, keywords, the operators / punctuation, numerals (decimal digits,
                decimal with fraction and/or exponent, `0x` hexadecimal), quoted strings spelled character by character
-               (raw byte, `\c` escape, `\ddd`, backslash-line end) and long strings `[=*[ … ]=*]` of any level
+               (raw byte, `\c` escape, `\d` `\dd` `\ddd`, backslash-line end) and long strings `[=*[ … ]=*]` of any level
   * `Sep`    : one element of the text between two tokens — a blank (space, \t, \f, \v, \n, \r), a short comment
                `--…` ended by a line end (or by the end of the text), a long comment `--[=*[ … ]=*]`
   * `Layout` : which separators stand in front of the i-th token (`lay n` = after the last token)
@@ -34,6 +34,8 @@ inductive SChar where
   | raw (b : UInt8)         -- the byte itself
   | esc (c : UInt8)         -- backslash + one of  a b f n r t v \ " '
   | dec (b : UInt8)         -- backslash + the three decimal digits of `b`
+  | dec1 (b : UInt8)        -- backslash + the one decimal digit of `b` (b < 10; the next character is no digit)
+  | dec2 (b : UInt8)        -- backslash + the two decimal digits of `b` (b < 100; the next character is no digit)
   | nl (eol : Bytes)        -- backslash + a line end (LF, CR, CRLF, LFCR); denotes LF
 deriving DecidableEq, Repr, Inhabited
 
@@ -41,6 +43,8 @@ def SChar.render : SChar → Bytes
   | .raw b => [b]
   | .esc c => [92, c]
   | .dec b => [92, 48 + b / 100, 48 + b / 10 % 10, 48 + b % 10]
+  | .dec1 b => [92, 48 + b]
+  | .dec2 b => [92, 48 + b / 10, 48 + b % 10]
   | .nl eol => 92 :: eol
 
 def escapeValue (c : UInt8) : UInt8 := ((escapes.find? (fun p => p.1 == c)).map (·.2)).getD 0
@@ -49,6 +53,8 @@ def SChar.denote : SChar → UInt8
   | .raw b => b
   | .esc c => escapeValue c
   | .dec b => b
+  | .dec1 b => b
+  | .dec2 b => b
   | .nl _ => 10
 
 /-- inside quotes `q`: a raw byte is anything but the quote, the backslash and the line terminators. -/
@@ -56,7 +62,29 @@ def SChar.wf (q : UInt8) : SChar → Bool
   | .raw b => b != q && b != 92 && b != 10 && b != 13
   | .esc c => escapes.any (fun p => p.1 == c)
   | .dec _ => true
+  | .dec1 b => b < 10
+  | .dec2 b => b < 100
   | .nl eol => lineEndSpellings.contains eol
+
+/-- a decimal escape with fewer than three digits: the lexer would take a following digit into the escape. -/
+def SChar.shortDec : SChar → Bool
+  | .dec1 _ => true
+  | .dec2 _ => true
+  | _ => false
+
+def SChar.startsWithDigit : SChar → Bool
+  | .raw b => isDigit b
+  | _ => false
+
+def headStartsWithDigit : List SChar → Bool
+  | d :: _ => d.startsWithDigit
+  | [] => false
+
+/-- the characters of a quoted string: each one well-formed, and no digit directly behind a short decimal escape. -/
+def scharsWf (q : UInt8) : List SChar → Bool
+  | [] => true
+  | c :: rest =>
+    c.wf q && !(c.shortDec && headStartsWithDigit rest) && scharsWf q rest
 
 /-- exponent part of a decimal numeral: marker `e`/`E`, optional sign, digits. -/
 structure Exp where
@@ -90,6 +118,13 @@ def Numeral.wf : Numeral → Bool
     (ip != [] || (match fp with | some f => f != [] | none => false)) &&
     (match ex with | some x => x.wf | none => true)
   | .hex x hs => (x == 120 || x == 88) && hs != [] && hs.all isHex
+
+/-- would the reference lexer take a dot directly behind the numeral into the numeral?  (llex.c read_numeral: digits
+    and dots are collected only before the exponent; a hexadecimal numeral ends at a dot.) -/
+def Numeral.dotContinues : Numeral → Bool
+  | .dec _ => true
+  | .flt _ _ ex => ex.isNone
+  | .hex _ _ => false
 
 /-- operators and punctuation (manual §2.1, plus `::`). -/
 def symbols : List Bytes := symbols1.map (fun c => [c]) ++ symbols2 ++ symbols3
@@ -132,12 +167,30 @@ def RTok.wf : RTok → Bool
   | .kw k => keywords.contains k
   | .sym sp => symbols.contains sp
   | .num n => n.wf
-  | .str q cs => (q == 34 || q == 39) && cs.all (SChar.wf q)
+  | .str q cs => (q == 34 || q == 39) && scharsWf q cs
   | .lstr level first content =>
     -- line terminators inside a long string are normalised to LF and a first one is skipped: the content that
     -- is denoted byte for byte has no CR, and starts with LF only behind an explicit (skipped) first line end
     ([] :: lineEndSpellings).contains first && content.all (fun b => b != 13) &&
     (!(first == [] || first == [13]) || content.head? != some 10) && noClose level content
+
+/-- the token as the Spec's reference lexer (LexSpec.lean) reports it: kind and text (spelling; for strings the
+    denoted bytes). -/
+def RTok.kind : RTok → Kind
+  | .name _ => .name
+  | .kw _ => .keyword
+  | .sym _ => .symbol
+  | .num _ => .number
+  | .str _ _ => .string
+  | .lstr _ _ _ => .string
+
+def RTok.specText : RTok → Bytes
+  | .name w => w
+  | .kw k => k.toUTF8.toList
+  | .sym sp => sp
+  | .num n => n.render
+  | .str _ cs => cs.map SChar.denote
+  | .lstr _ _ content => content
 
 /-! ## separators -/
 
@@ -176,7 +229,7 @@ def renderSeps (g : List Sep) : Bytes := g.flatMap Sep.render
 /-! ## which adjacent tokens need a separator -/
 
 /-- may the text `r` follow the token directly without changing what the reference lexer reads?
-    (maximal munch: a name / numeral swallows alphanumerics, a numeral also dots; `=` `<` `>` `~` combine with `=`,
+    (maximal munch: a name / numeral swallows alphanumerics, a numeral without exponent also dots; `=` `<` `>` `~` combine with `=`,
     `:` with `:`, dots with dots and digits, `-` `-` starts a comment, `[` `[` / `[` `=` a long bracket.) -/
 def follow (t : RTok) (r : Bytes) : Bool :=
   match r with
@@ -185,7 +238,7 @@ def follow (t : RTok) (r : Bytes) : Bool :=
     match t with
     | .name _ => !isAlnum c
     | .kw _ => !isAlnum c
-    | .num _ => !isAlnum c && c != 46
+    | .num n => !isAlnum c && !(c == 46 && n.dotContinues)
     | .sym sp =>
       if sp = [61] ∨ sp = [60] ∨ sp = [62] then c != 61
       else if sp = [58] then c != 58
@@ -245,5 +298,26 @@ def lineEnds (bs : Bytes) : Nat :=
       | [] => 1
     else lineEnds r
 termination_by bs.length
+
+/-! ## what the reference lexer has to read from a rendering -/
+
+/-- the expected stream of the reference lexer `LexSpec.lex`: kind, text, and 1 + the line ends rendered before the
+    token (`pre` = the text before gap `i`). -/
+def specExpectFrom (lay : Layout) : Nat → Bytes → List RTok → List STok
+  | _, _, [] => []
+  | i, pre, t :: ts =>
+    { kind := t.kind, text := t.specText, line := 1 + lineEnds (pre ++ renderSeps (lay i)) } ::
+      specExpectFrom lay (i + 1) (pre ++ renderSeps (lay i) ++ t.render) ts
+
+/-! ## columns -/
+
+/-- the column reached after a text when the column before it was `c`: every byte advances it by one, a line
+    terminator byte resets it to 0. -/
+def colFrom (c : Nat) : Bytes → Nat
+  | [] => c
+  | b :: r => if isNewline b then colFrom 0 r else colFrom (c + 1) r
+
+/-- number of bytes behind the last line terminator byte of a text. -/
+def lineCol (bs : Bytes) : Nat := colFrom 0 bs
 
 end GLua.LexRender
